@@ -37,6 +37,7 @@ type vpHdrScn struct {
 	lazySync bool
 	offered  []wire.BlockHeader // the last offered chain whose headers all passed the rules
 	interval int                // difficulty retarget interval in blocks (0: the network never retargets)
+	pace     int                // timestamps of fresh headers: 0 one block time apart, 1 as early as the rules allow, 2 far apart
 }
 
 // reqBits: the difficulty the retarget rules require of the header on top
@@ -56,9 +57,11 @@ func (s *vpHdrScn) reqBits(parent []wire.BlockHeader) uint32 {
 	span := int64(s.interval) * 600
 	actual := last.Timestamp.Unix() - first.Timestamp.Unix()
 	if actual < span/4 {
+		vpReach("retarget-window-clamped-fast")
 		actual = span / 4
 	}
 	if actual > span*4 {
+		vpReach("retarget-window-clamped-slow")
 		actual = span * 4
 	}
 	nt := new(big.Int).Mul(blockchain.CompactToBig(last.Bits), big.NewInt(actual))
@@ -201,6 +204,14 @@ func (s *vpHdrScn) altHeader(parent []wire.BlockHeader, kind int, symTs bool) *w
 	case 6: // boundary, valid: exactly at the future limit
 		h.Timestamp = time.Unix(vpNowUnix+2*3600, 0)
 	}
+	if kind == 0 {
+		switch s.pace {
+		case 1: // as early as the median-time rule allows: retarget windows run fast
+			h.Timestamp = time.Unix(vpRefMTP(parent)+1, 0)
+		case 2: // five retarget timespans after the parent: windows run slow
+			h.Timestamp = time.Unix(parent[len(parent)-1].Timestamp.Unix()+5*int64(s.interval+1)*600, 0)
+		}
+	}
 	if symTs && kind == 0 {
 		h.Timestamp = time.Unix(int64(vpU32("timestamp")), 0)
 	}
@@ -265,7 +276,7 @@ func (s *vpHdrScn) oneMessage(tag string, o vpMsgOpt) bool {
 		parent = append(parent, S[0], x) // heights are irrelevant: the message does not connect
 	}
 	honest := vpRange(tag+"branch", 0, 1) == 0
-	L := vpRange(tag+"newHeaders", 1, maxNew)
+	L := vpRange(tag+"newHeaders", vpParam("minnew", 1), maxNew)
 	if honest {
 		if base < 0 || base+L > n || !vpSameChain(S[:base+1], e.chain[:base+1]) {
 			return false
@@ -276,6 +287,10 @@ func (s *vpHdrScn) oneMessage(tag string, o vpMsgOpt) bool {
 			hgt = append(hgt, base+j)
 		}
 	} else {
+		s.pace = 0
+		if vpParam("paces", 0) == 1 {
+			s.pace = vpRange(tag+"pace", 0, 2)
+		}
 		bad := -1
 		kind := 0
 		if kinds > 0 {
